@@ -248,6 +248,10 @@ def handleEv (d : DS) (ws : List String) : Outp :=
       | ["launch", "round"] => tryStep d (.launchRound i) "launch-round"
       | ["launch", "submit", _, _] => tryStep d (.launchSubmit i) "launch-submit"
       | ["config", m] => tryStep d (.config i (m != "reset")) "config"
+      -- rows moved between the two cache tables while the process is down: the key ↦ (index, timestamp) map is unchanged
+      | ["legacyize", _] => (match x.phase with
+          | .down => .ok d "legacyize"
+          | _ => .bad d "cache file rewritten under a running process")
       | ["clock", v] =>
         (match v.toNat? with
          | some n => tryStep d (.clock i n) s!"clock@{phaseName x.phase}"
